@@ -11,11 +11,12 @@ import Driver.Itp
 import Driver.Heap
 import Driver.Gro
 import Driver.ManagerGro
+import Driver.Metropolis
 /-
   gmdriver — reads request lines on stdin, writes one response line per request on stdout.
 -/
 
-def handlers : List Handler := [DGeom.handle, DEMap.handle, DMove.handle, DChi2.handle, DPbc.handle, DRestr.handle, DManager.handle, DSysGro.handle, DItp.handle, DHeap.handle, DGro.handle, DManagerGro.handle]
+def handlers : List Handler := [DGeom.handle, DEMap.handle, DMove.handle, DChi2.handle, DPbc.handle, DRestr.handle, DManager.handle, DSysGro.handle, DItp.handle, DHeap.handle, DGro.handle, DManagerGro.handle, DMC.handle]
 
 def dispatch (op : String) : Option (Rd String) :=
   handlers.findSome? (fun h => h op)
